@@ -498,6 +498,11 @@ def enum_misc(dts):
                 yield (f"arange(1, 7, 2, {d})", f"arange|{_k(d)}", True,
                        lambda d=d: np.arange(1, 7, 2, dtype=np.dtype(d)),
                        lambda d=d: pt.arange(1, 7, 2, dtype=np.dtype(d)))
+    for N, M, k in itertools.product((0, 1, 3), (None, 0, 1, 4),
+                                     (-2, 0, 1, 5)):
+        yield (f"eye({N}, {M}, {k})", "eye|shape", True,
+               lambda N=N, M=M, k=k: np.eye(N, M, k),
+               lambda N=N, M=M, k=k: pt.eye(N, M, k))
     for shape, pw in itertools.product(((3,), (2, 3)),
                                        (1, (1, 2), ((1, 2),), ((1, 2), (0, 1)),
                                         ((1, 2), (0, 1), (1, 1)), -1)):
